@@ -250,7 +250,42 @@ fn case(g: &mut Gen, ctx: &mut Ctx) -> CaseResult {
     if reordered {
         ctx.class("canonicalize-reorders");
     }
-    check(&key, lenfirst, ctx)
+    check(&key, lenfirst, ctx)?;
+    // an in-memory key may also repeat a label among its extras (it cannot be encoded, but it can
+    // be canonicalised): nothing but the order changes there either
+    if !key.params.is_empty() && g.ratio(1, 8) {
+        let mut k = key.clone();
+        let n = 1 + g.below(2);
+        for _ in 0..n {
+            let from = g.below(k.params.len());
+            let l = k.params[from].0.clone();
+            let at = g.below(k.params.len() + 1);
+            k.params.insert(at, (l, Value::from(g.range_i64(1000, 1009))));
+        }
+        ctx.class("key:repeated-extra-label");
+        let mut c = k.clone();
+        c.canonicalize(ordering(lenfirst));
+        let pairs = |k: &CoseKey| -> Vec<String> {
+            let mut v: Vec<String> = k.params.iter().map(|(l, v)| format!("{:?}={:?}", l, v)).collect();
+            v.sort();
+            v
+        };
+        ensure!(pairs(&c) == pairs(&k), "canonicalize changed the label-value pairs of a key that repeats a label\n  before: {:?}\n  after:  {:?}", k.params, c.params);
+        let mut typed_only_before = k.clone();
+        typed_only_before.params.clear();
+        let mut typed_only_after = c.clone();
+        typed_only_after.params.clear();
+        ensure!(same(&typed_only_before, &typed_only_after), "canonicalize changed a typed field");
+        for w in c.params.windows(2) {
+            let (a, b) = (w[0].0.clone().to_vec().map_err(|e| format!("{:?}", e))?, w[1].0.clone().to_vec().map_err(|e| format!("{:?}", e))?);
+            let o = if lenfirst { cmp_len_first(&a, &b) } else { cmp_lex(&a, &b) };
+            ensure!(o != std::cmp::Ordering::Greater, "canonicalize left the extras of a key that repeats a label out of order: {:?}", c.params.iter().map(|(l, _)| l.clone()).collect::<Vec<_>>());
+        }
+        let mut again = c.clone();
+        again.canonicalize(ordering(lenfirst));
+        ensure!(same(&again, &c), "canonicalising twice differs from canonicalising once (key repeating a label)");
+    }
+    Ok(())
 }
 
 pub fn property() -> Property {
@@ -258,7 +293,7 @@ pub fn property() -> Property {
         id: "C20",
         title: "Canonicalising a key sorts its encoding and changes nothing else",
         rule: "well-formed keys (constructed: every subset of kid/alg/key_ops/Base IV x kty class x 0-8 extras (one case in six: 20-80 extras of mixed encoded lengths) from a palette of small, large, negative, extreme and text labels in a tape-drawn order; or decoded from styled bytes) x both orderings; \
-               exhaustive: every permutation of every subset of size <= 5 of a 9-label palette, and every subset of the typed fields; oracle: encoded keys strictly ascending under the ordering computed on own encodings, pair set unchanged, decoded key unchanged, idempotence, byte-stable re-encoding; \
+               exhaustive: every permutation of every subset of size <= 5 of a 9-label palette, and every subset of the typed fields; oracle: encoded keys strictly ascending under the ordering computed on own encodings, pair set unchanged, decoded key unchanged, idempotence, byte-stable re-encoding; in-memory keys that repeat a label among their extras: pair multiset, typed fields and idempotence; \
                non-trivial = >= 2 extras that canonicalisation reorders, or extras together with typed fields; distinct by (key, ordering)",
         assumptions: &["orderings computed by the harness on its own deterministic encodings of the emitted map keys (strict reader)"],
         exhaustive_domains: &["all permutations of all subsets (size <= 5) of 9 extra labels x 2 orderings", "all 16 subsets of the typed fields x 2 orderings", "explicit witnesses of the repaired label-0 defect"],
